@@ -36,7 +36,7 @@ class TLCResult:
 
 _RE_STATS = re.compile(r'(\d+) states generated, (\d+) distinct states found')
 _RE_DEPTH = re.compile(r'The depth of the complete state graph search is (\d+)')
-_RE_COV = re.compile(r'^<(\w+) line \d+, col \d+ to line \d+, col \d+ of module (\w+)>: (\d+):(\d+)', re.M)
+_RE_COV = re.compile(r'^<(\w+) line \d+, col \d+ to line \d+, col \d+ of module (\w+)(?: \((\d+) \d+ \d+ \d+\))?>: (\d+):(\d+)', re.M)
 _RE_INV = re.compile(r'Error: Invariant (\w+) is violated')
 _RE_PROP = re.compile(r'Error: (?:Action|Temporal) propert(?:y|ies) (\w+)? ?(?:is|were) violated')
 
@@ -99,7 +99,9 @@ def run(module, cfg, scratch, *, workers=16, timeout=900, coverage=True, dump=Fa
     m = _RE_DEPTH.search(p.stdout)
     if m:
         res.depth = int(m.group(1))
-    for name, _mod, dist, gen in _RE_COV.findall(p.stdout):
+    for name, _mod, sub, dist, gen in _RE_COV.findall(p.stdout):
+        if sub:
+            name = '%s@%s' % (name, sub)     # a disjunct of a named action, by its line
         a, b = res.coverage.get(name, (0, 0))
         res.coverage[name] = (a + int(dist), b + int(gen))
     m = _RE_INV.search(p.stdout)
